@@ -1,7 +1,7 @@
 SPECIFICATION Spec
 CONSTANTS
  NH = 2
- K = {2,3,4}
+ K = {2,3,4,5}
  V = {1}
  MaxOps = 6
  KeepHist = TRUE
